@@ -71,13 +71,13 @@ def run_case(case, rec):
             ok = True
             for round_ in range(len(res['lexicons'])):
                 before = set(m.lex)
-                planned = m.add_resource(res)
                 with mon.call('add'):
                     wnio.add(path)
                 rec.call('wn.add')
                 for key, msg in mon.check_atomic_success() + mon.drain_spec_violations():
                     rec.violation('sql:' + key, msg)
                 real = sorted(lx.specifier() for lx in wn.lexicons())
+                m.add_like_real(res, real)
                 if real != sorted(m.lex):
                     rec.violation('installed-set', f'after add #{round_ + 1}: installed {real}, model {sorted(m.lex)}')
                     ok = False
